@@ -65,6 +65,11 @@ def load_table():
         return json.load(fh)["functions"]
 
 
+def cfg_only():
+    with open(os.path.join(HERE, "tables", "refusals.json")) as fh:
+        return set(json.load(fh).get("cfg_only") or [])
+
+
 def _counts(pairs):
     out = {}
     for kind, msg in pairs:
@@ -78,6 +83,9 @@ def refusal_rules(ctx, facts, rep, rule="C03-REFUSALS", scope="read"):
     inv = inventory(facts)
     sc = READ_SCOPE if scope == "read" else WRITE_SCOPE
     full = DEFAULT_FEATURES <= set(facts.features) and "unreserved" not in facts.features
+    if not full:
+        co = cfg_only()
+        inv = {k: [x for x in v if x[1] not in co] for k, v in inv.items()}
     fns = sorted(k for k in set(table) | set(inv) if sc.search(k))
     if sum(len(inv.get(k, ())) for k in fns) == 0:
         raise AnchorLost("no error construction found in the %s side (extractor lost the aggregates?)" % scope)
